@@ -35,7 +35,7 @@ RULE = ("history as in C08 applied to a (cached, uncached) pair, plus image-iter
 PROBES = ["frame_revisited_after_setting_change", "cache_hit_observed", "render_fault_both_sides",
           "image_iterator", "image_size_changed_mid_iteration", "dynamic_size_resize",
           "cache_int_equal_frame_count", "infinite_loops", "equal_setting_set_again",
-          "animation_through_draw", "draw_revisits_frames"]
+          "animation_through_draw", "draw_revisits_frames", "file_sourced_image_iterator"]
 COMPONENTS = {
     "real": ["RenderIterator (cache entries keyed by size/duration/args, padding after cache)",
              "ImageIterator._animate two-phase cache", "BaseImage._renderer / _render_image",
@@ -290,12 +290,21 @@ def run_image(ch, ctx, fault):
         n = ch.int("n", 2, 5)
         data = images.anim_bytes(n, ch.int("sw", 1, 20), ch.int("sh", 1, 20))
         from PIL import Image
-        pils = [Image.open(io.BytesIO(data)) for _ in range(2)]
         dyn = ch.bool("dynamic_size", 0.5)
         imgs = []
-        for p in pils:
-            im = cls(p) if dyn else cls(p, width=ch.int("iw", 1, min(8, cols)))
-            imgs.append(im)
+        tmp_path = None
+        if ch.bool("file_source", 0.4):
+            # images opened from a file path: the iterator works on a file it opened itself
+            tmp_path = images.write_tmp(data, ".gif")
+            ctx.probe("file_sourced_image_iterator")
+            iw_ = None if dyn else ch.int("iw", 1, min(8, cols))
+            for _ in range(2):
+                imgs.append(cls.from_file(tmp_path) if dyn else cls.from_file(tmp_path, width=iw_))
+        else:
+            pils = [Image.open(io.BytesIO(data)) for _ in range(2)]
+            for p in pils:
+                im = cls(p) if dyn else cls(p, width=ch.int("iw", 1, min(8, cols)))
+                imgs.append(im)
         if dyn:
             # second image must make the same choice draws: size stays Size.FIT
             pass
@@ -405,3 +414,9 @@ def run_image(ch, ctx, fault):
             it.close()
         for im in imgs:
             im.close()
+        if tmp_path:
+            import os
+            try:
+                os.remove(tmp_path)
+            except OSError:
+                pass
